@@ -240,13 +240,14 @@ def _case_worker(task):
         from contracts import build_registry
         reg = build_registry()
         con = reg.get(q)
+        ncases = len(con.cases)
         con.cases = [con.cases[k]]
         ex = verify.Explorer(reg, LIB)
         rep = ex.explore(q)
         verify.discharge_all(rep, timeout_ms)
-        n = (200 if tier == 'quick' else 3000) // max(1, len(reg.get(q).cases))
+        n = (200 if tier == 'quick' else 3000) // max(1, ncases)
         try:
-            cc = crosscheck.crosscheck_function(rep, con, max(20, n // 1), seed + k)
+            cc = crosscheck.crosscheck_function(rep, con, max(20, n), seed + k)
         except Exception as e:
             cc = {'disagreements': [], 'skipped': f'cross-check crashed: {type(e).__name__}: {e}'}
         used = set()
